@@ -144,11 +144,11 @@ pub open spec fn pool_after(w: Whirlpool, u: PostSwapUpdate, a_to_b: bool, ts: u
     crate::state_core::after_swap(w, u.next_liquidity, u.next_tick_index, u.next_sqrt_price, u.next_fee_growth_global, u.next_reward_infos, u.next_protocol_fee, a_to_b, ts)
 }
 
-//@ fn util/swap_utils.rs perform_swap -> r tags=C06,C03,C17
+//@ fn util/swap_utils.rs perform_swap -> r tags=C06,C03,C17 canary
     ensures r is Ok ==> (if a_to_b { moved(token_owner_account_a.k, token_vault_a.k, amount_a) && moved(token_vault_b.k, token_owner_account_b.k, amount_b) }
                           else { moved(token_owner_account_b.k, token_vault_b.k, amount_b) && moved(token_vault_a.k, token_owner_account_a.k, amount_a) }),
 //@ end
-//@ fn util/swap_utils.rs update_and_swap_whirlpool -> r tags=C06,C03,C17
+//@ fn util/swap_utils.rs update_and_swap_whirlpool -> r tags=C06,C03,C17 canary
     requires fee_fits(old(whirlpool).data, *swap_update, is_token_fee_in_a),
     ensures final(whirlpool).k == old(whirlpool).k,
         final(whirlpool).data == pool_after(old(whirlpool).data, *swap_update, is_token_fee_in_a, reward_last_updated_timestamp),
@@ -271,11 +271,11 @@ pub fn transfer_from_vault_to_owner_v2<'info>(whirlpool: &Account<'info, Whirlpo
     token_program: &Interface<'info, TokenInterface>, memo_program: &Program<'info, Memo>, transfer_hook_accounts: &Option<Vec<AccountInfo<'info>>>, amount: u64, memo: &[u8]) -> (r: Result<()>)
     ensures r is Ok ==> moved(*token_vault.info.key, *token_owner_account.info.key, amount) { unimplemented!() }
 
-//@ fn util/v2/swap_utils.rs perform_swap_v2 -> r tags=C06,C03,C17,C16
+//@ fn util/v2/swap_utils.rs perform_swap_v2 -> r tags=C06,C03,C17,C16 canary
     ensures r is Ok ==> (if a_to_b { moved(*token_owner_account_a.info.key, *token_vault_a.info.key, amount_a) && moved(*token_vault_b.info.key, *token_owner_account_b.info.key, amount_b) }
                           else { moved(*token_owner_account_b.info.key, *token_vault_b.info.key, amount_b) && moved(*token_vault_a.info.key, *token_owner_account_a.info.key, amount_a) }),
 //@ end
-//@ fn util/v2/swap_utils.rs update_and_swap_whirlpool_v2 -> r tags=C06,C03,C17,C16
+//@ fn util/v2/swap_utils.rs update_and_swap_whirlpool_v2 -> r tags=C06,C03,C17,C16 canary
     requires fee_fits(old(whirlpool).data, *swap_update, is_token_fee_in_a),
     ensures final(whirlpool).k == old(whirlpool).k,
         final(whirlpool).data == pool_after(old(whirlpool).data, *swap_update, is_token_fee_in_a, reward_last_updated_timestamp),
@@ -283,7 +283,7 @@ pub fn transfer_from_vault_to_owner_v2<'info>(whirlpool: &Account<'info, Whirlpo
                           else { moved(*token_owner_account_b.info.key, *token_vault_b.info.key, swap_update.amount_b) && moved(*token_vault_a.info.key, *token_owner_account_a.info.key, swap_update.amount_a) }),
 //@ end
 /// two-hop: the input goes from the trader to pool one, leg one's output goes from pool one's vault straight into pool two's vault, the final output to the trader
-//@ fn util/v2/swap_utils.rs update_and_two_hop_swap_whirlpool_v2 -> r tags=C17,C06,C16
+//@ fn util/v2/swap_utils.rs update_and_two_hop_swap_whirlpool_v2 -> r tags=C17,C06,C16 canary
     requires fee_fits(old(whirlpool_one).data, *swap_update_one, is_token_fee_in_one_a), fee_fits(old(whirlpool_two).data, *swap_update_two, is_token_fee_in_two_a),
     ensures final(whirlpool_one).k == old(whirlpool_one).k, final(whirlpool_two).k == old(whirlpool_two).k,
         final(whirlpool_one).data == pool_after(old(whirlpool_one).data, *swap_update_one, is_token_fee_in_one_a, reward_last_updated_timestamp),
@@ -397,5 +397,33 @@ pub open spec fn two_hop_v2_post(a0: TwoHopSwapV2<'_>, a1: TwoHopSwapV2<'_>, rem
         let s2 = built_seq(a0.whirlpool_two.data, a0.whirlpool_two.k, ta_keys3(*a0.tick_array_two_0.k, *a0.tick_array_two_1.k, *a0.tick_array_two_2.k), sup_keys(pr.supplemental_tick_arrays_two), a_to_b_two)->Ok_0;
         assert(two_hop_v2_legs(a0, *ctx.accounts, s1, s2, adaptive_fee_info_one, adaptive_fee_info_two, amount, other_amount_threshold, amount_specified_is_input, a_to_b_one, a_to_b_two, sqrt_price_limit_one, sqrt_price_limit_two, u1, u2)); //# C17
     }
+//@ end
+
+// ------------------------------------------------------------------ reachability canaries (vacuity guard, see tools/run.py)
+/// reachability canary (must FAIL): the same body with the contract 'never succeeds'
+//@ fn instructions/v2/swap.rs swap_with_transfer_fee_extension -> r as=reach_canary_swap_with_transfer_fee_extension tags=C16
+    ensures r is Err,
+//@ end
+/// reachability canary (must FAIL): the same body with the contract 'never succeeds'
+//@ fn instructions/swap.rs handler -> r as=reach_canary_swap_handler tags=C03,C17,C06
+    ensures r is Err,
+//@ rewrite /emit!\(Traded \{/ => /emit_traded(Traded {/
+//@ end
+/// reachability canary (must FAIL): the same body with the contract 'never succeeds'
+//@ fn instructions/two_hop_swap.rs handler -> r as=reach_canary_two_hop_swap_handler tags=C17,C03
+    ensures r is Err,
+//@ rewrite /emit!\(Traded \{/ => /emit_traded(Traded {/ 2
+//@ end
+/// reachability canary (must FAIL): the same body with the contract 'never succeeds'
+//@ fn instructions/v2/swap.rs handler -> r as=reach_canary_swap_v2_handler tags=C03,C16,C17
+    ensures r is Err,
+//@ rewrite /emit!\(Traded \{/ => /emit_traded(Traded {/
+//@ rewrite /transfer_memo::TRANSFER_MEMO_SWAP\.as_bytes\(\)/ => /memo_bytes(transfer_memo::TRANSFER_MEMO_SWAP)/
+//@ end
+/// reachability canary (must FAIL): the same body with the contract 'never succeeds'
+//@ fn instructions/v2/two_hop_swap.rs handler -> r as=reach_canary_two_hop_swap_v2_handler tags=C17,C03,C16
+    ensures r is Err,
+//@ rewrite /emit!\(Traded \{/ => /emit_traded(Traded {/ 2
+//@ rewrite /transfer_memo::TRANSFER_MEMO_SWAP\.as_bytes\(\)/ => /memo_bytes(transfer_memo::TRANSFER_MEMO_SWAP)/
 //@ end
 }
